@@ -165,6 +165,15 @@ func (s *Spec) AddNodeBalance(id store.NodeID, c *big.Int) error {
 	return nil
 }
 
+// Owner is the Account field a balance of wallet a carries: the wallet itself once a record
+// exists for it (first credit or first link), empty before.
+func (s *Spec) Owner(a store.Account) store.Account {
+	if s.Bal[a] == nil {
+		return ""
+	}
+	return a
+}
+
 func (s *Spec) GetAccountBalance(a store.Account) *big.Int {
 	if s.Bal[a] == nil {
 		return new(big.Int)
